@@ -397,7 +397,18 @@ def run_case(ctx, job, idx, rng, st):
                 _, g = got[k]
                 wk = dict(w, item=k)
                 if kind == "text":
-                    ctx.expect(b == g, f"C04/label-{name}", dict(wk, baseline=b, got=g), f"{name}[{k}] differs with labels ({l},{le}):\n{b}\n{g}")
+                    key = f"C04/label-{name}"
+                    if b != g and mism and name == "tle-text":
+                        # known mechanism: only the printed epoch (line 1, columns 19-32, unit 1e-8 d = 864 us) moves, by <= one day's dUT1
+                        lb, lg = b.splitlines(), g.splitlines()
+                        try:
+                            same_rest = len(lb) == len(lg) == 2 and lb[1] == lg[1] and lb[0][:18] == lg[0][:18] and lb[0][32:68] == lg[0][32:68]
+                            d_epoch = abs(float(lb[0][18:32]) - float(lg[0][18:32])) * 86400.0
+                            if same_rest and d_epoch <= kt + 864e-6:
+                                key = "C04/eop-day-lookup-by-label"
+                        except ValueError:
+                            pass
+                    ctx.expect(b == g, key, dict(wk, baseline=b, got=g), f"{name}[{k}] differs with labels ({l},{le}):\n{b}\n{g}")
                     continue
                 if kind != "text" and not np.all(np.isfinite(np.asarray(b, dtype=float))):
                     ctx.count("baseline-not-finite")
